@@ -2,7 +2,15 @@
 
 The domain is finite, so nothing is sampled: every one of the 81 tuples, 36 pairs, 9+6 strain spellings,
 each in positional-int, str and int spelling, plus the out-of-range neighbourhood (indices 0..4 / 0..7 and
-malformed strings) goes through the real `c_` / `e_` and through the Lean model.
+malformed strings) goes through the real `c_` / `e_` and through
+  (a) the hand-written Lean model (`CijModel/Voigt.lean`, ops `c_` / `e_`), and
+  (b) the TRANSLATED SOURCE: `cij/util/voigt.py` re-emitted on this run as a `PyLite.Module` literal
+      (`lean/Generated/VoigtSrc.lean`) and run by the PyLite evaluator inside the Lean driver (op `c10.src`) — every view
+      (`s v standard voigt multiplicity is_* calc_type repr`), exception KINDS and the messages of explicit `raise`s are
+      compared.  (b) also gets a malformed stream (bools, None, negative / long ints, non-digit strings, nested tuples,
+      wrong arities; fixed list + seeded random mixtures): it validates the evaluator's Python semantics against CPython.
+      `unsupported` / `out_of_fuel` where CPython answers is a broken tie, never a pass.
+The domain the kernel decides (`Cij.VoigtSrc.domainC/E`, op `c10.domain`) is checked to be exactly `all_inputs()`.
 """
 from __future__ import annotations
 
@@ -13,6 +21,21 @@ from harness.common import Ctx, Result, Disagreement, OracleFailure
 ASSUMPTIONS = [
     "Python NamedTuple __eq__/__hash__ are structural (checked: == and hash compared for all 21x21 keys and all 81x81 tuples)",
     "every Python exception type counts as 'rejected'",
+    "PyLite covers None/bool/int/ASCII str/tuple arguments; floats, bytes, lists, dicts, non-ASCII strings and keyword "
+    "arguments are outside it (the evaluator answers `unsupported`, the harness does not send them)",
+    "CPython's recursion limit (1000 frames incl. the caller's) is modelled by PyLite's `frames` = 60: same exception KIND "
+    "(RecursionError) for the one unbounded recursion of voigt.py, C_.create(<one digit>), different depth",
+]
+
+TRUSTED_EXTRA = [
+    "tools/gens/voigt_src.py + tools/gens/_pylite.py (ast -> PyLite.Module translator, ~300 lines): a mistranslation is a "
+    "defect of the trusted base; it is exercised on every run by the differential test below",
+    "lean/CijModel/PyLite.lean: the PyLite evaluator IS the semantics the `voigt_model_is_source*` theorems give to the "
+    "translated source.  Its agreement with CPython 3.12 is TESTED, not proved: on this run the translated module and the real "
+    "cij.util.c_/e_ were compared on the complete C10 domain and on the malformed stream (counts in input_distribution: "
+    "src_cases, src_malformed_cases; value, every view, exception kind, message of explicit raises)",
+    "interpreter-raised exception messages, floats and everything listed under NOT implemented in the header of PyLite.lean "
+    "are outside the evaluator (they evaluate to `unsupported`, which the harness reports as a broken tie if reached)",
 ]
 
 
@@ -90,6 +113,91 @@ def all_inputs():
     return ops
 
 
+# ----------------------------------------------------------------------------- translated source (PyLite) vs CPython
+def enc(v):
+    """typed encoding of a CPython value — the same encoding as `valJson` in lean/CijModel/Ops/C10.lean"""
+    import enum
+    if v is None or isinstance(v, bool) or isinstance(v, int) or isinstance(v, str): return v
+    if isinstance(v, enum.Enum): return {"e": f"{type(v).__name__}.{v.name}"}
+    if isinstance(v, tuple) and hasattr(v, "_fields"): return {"r": type(v).__name__, "f": [enc(x) for x in v]}
+    if isinstance(v, tuple): return {"t": [enc(x) for x in v]}
+    if isinstance(v, list): return {"l": [enc(x) for x in v]}
+    return {"other": type(v).__name__}
+
+
+def py_args(args):
+    """JSON argument list -> the Python arguments (arrays are tuples)"""
+    return [tuple(py_args(a)) if isinstance(a, list) else a for a in args]
+
+
+def exc_json(e):
+    return {"exc": type(e).__name__, "msg": str(e)}
+
+
+C_VIEWS = ["s", "v", "standard", "voigt", "multiplicity", "is_longitudinal", "is_off_diagonal", "is_shear", "calc_type", "__repr__"]
+E_VIEWS = ["s", "v", "standard", "voigt", "__repr__"]
+
+
+def src_canon(fn, args):
+    """the real function on `args`: value + every view, or the exception"""
+    try:
+        r = fn(*py_args(args))
+    except Exception as e:
+        return exc_json(e)
+    out = {"ok": enc(r)}
+    views = C_VIEWS if type(r).__name__ == "ModulusRepresentation" else E_VIEWS if type(r).__name__ == "StrainRepresentation" else []
+    for p in views:
+        try:
+            out[p] = {"ok": enc(repr(r) if p == "__repr__" else getattr(r, p))}
+        except Exception as e:
+            out[p] = exc_json(e)
+    return out
+
+
+def same_result(py, ln):
+    """CPython result vs PyLite result.  Values are compared as canonical JSON text (so True != 1); an exception by kind, and
+    by message too when PyLite carries one (explicit `raise`; interpreter-raised messages are not modelled)."""
+    import json
+    if not isinstance(ln, dict) or "unsupported" in ln or "out_of_fuel" in ln: return False
+    if "exc" in py or "exc" in ln:
+        if py.get("exc") != ln.get("exc"): return False
+        return "msg" not in ln or ln["msg"] == py.get("msg")
+    if set(py) != set(ln): return False
+    for k in py:
+        if k == "ok":
+            if json.dumps(py[k], sort_keys=True) != json.dumps(ln[k], sort_keys=True): return False
+        elif not same_result(py[k], ln[k]): return False
+    return True
+
+
+MALFORMED_FIXED = [
+    # bools / None in every position
+    [True], [False], [None], [True, 2], [2, True], [False, 1], [None, 1], [1, None], [None, None], [True, True],
+    [True, 1, 2, 3], [1, None, 2, 3], [1, 2, 3, None], [True, True, True, True], [None, None, None, None],
+    # negative / long ints
+    [-1], [-5], [-12], [-1123], [-1, 2], [2, -1], [-1, -1], [1, 2, -3, 1], [10], [99], [100], [1000], [2312], [123456], [10 ** 12],
+    [7, 7], [0, 0], [6, 6, 6, 6], [3, 3, 3, 4],
+    # strings with non-digits, signs, blanks, underscores
+    ["1a"], ["a1"], ["-1"], ["+1"], [" 1"], ["1 "], ["1_2"], ["1.0"], ["1e1"], ["0x1"], ["12\n"], ["\t12"], ["'"], ["\""], ["\\"],
+    ["%d"], ["{i}"], ["1", "2"], ["1", 2], [1, "2"], ["12", "34"], ["1", "1", "2", "3"], ["a", "b"], ["ab", 1],
+    # nested tuples
+    [[1, 2]], [[1, 2], [3, 4]], [[1], 2], [1, [2]], [[1, 1], [2, 3]], [[]], [[], []], [["a", 1]], [[None, True]], [[[1]]],
+    # wrong arities
+    [], [1, 2, 3], [1, 2, 3, 1, 2], [1, 2, 3, 1, 2, 3], ["1", "2", "3"], ["123"], ["12345"], [""], ["", ""],
+]
+
+
+def malformed_stream(rng, n):
+    pool = [None, True, False, -3, -1, 0, 1, 2, 3, 4, 5, 6, 7, 9, 10, 11, 12, 23, 66, 77, 123, 1123, 3333, 4111, 12345,
+            "", "0", "1", "3", "6", "7", "11", "12", "23", "32", "46", "64", "77", "1123", "3211", "1a", "-1", " 2", "2 ", "1_1", "abc",
+            [1, 2], [2, 3], [], ["1"], [None]]
+    out = []
+    for _ in range(n):
+        k = int(rng.choice([0, 1, 1, 1, 2, 2, 2, 3, 4, 4, 4, 5, 6]))
+        out.append([pool[int(rng.integers(len(pool)))] for _ in range(k)])
+    return out
+
+
 def orbit(t):
     i, j, k, l = t
     return {(i, j, k, l), (j, i, k, l), (i, j, l, k), (j, i, l, k), (k, l, i, j), (l, k, i, j), (k, l, j, i), (l, k, j, i)}
@@ -164,6 +272,20 @@ def oracle(check: str, payload):
             for i in range(3): cnt[i] += flags[i]
         if cnt != [3, 3, 15]: return (cnt, [3, 3, 15])
         return None
+    if check == "input_spec":
+        op, args = payload["op"], payload["args"]
+        obs = call(c_ if op == "c_" else e_, canon_c if op == "c_" else canon_e, args)
+        exp = expected(op, args)
+        if obs != exp: return (obs, exp)
+        return None
+    if check == "sequence":
+        # the same statement for a short HISTORY of calls: every call must answer what the property demands of its spelling,
+        # whatever was called before (catches state shared between calls / between c_ and e_; replayable in a fresh process)
+        for op, args in payload["seq"]:
+            obs = call(c_ if op == "c_" else e_, canon_c if op == "c_" else canon_e, args)
+            exp = expected(op, args)
+            if obs != exp: return ({"call": [op, args], "observed": obs}, {"call": [op, args], "expected": exp})
+        return None
     if check == "reject":
         fn = c_ if payload["op"] == "c_" else e_
         try:
@@ -174,20 +296,25 @@ def oracle(check: str, payload):
     raise ValueError(check)
 
 
-def in_range(op, args):
-    """independent statement of which spellings are in range"""
+def digits_of(args):
+    """the index digits a spelling denotes (None: not a spelling of digits)"""
     def digits(a):
         if isinstance(a, str):
-            if a == "" or not a.isdigit(): return None
+            if a == "" or not (a.isascii() and a.isdigit()): return None
             return [int(c) for c in a]
-        if a < 0: return None
+        if isinstance(a, bool) or not isinstance(a, int) or a < 0: return None
         return [int(c) for c in str(a)]
     if len(args) == 1:
-        d = digits(args[0])
-        if d is None: return False
-    else:
-        d = list(args)
-        if not all(isinstance(x, int) for x in d): return False
+        return digits(args[0])
+    d = list(args)
+    if not all(isinstance(x, int) and not isinstance(x, bool) for x in d): return None
+    return d
+
+
+def in_range(op, args):
+    """independent statement of which spellings are in range"""
+    d = digits_of(args)
+    if d is None: return False
     if op == "c_":
         if len(d) == 4: return all(1 <= x <= 3 for x in d)
         if len(d) == 2: return all(1 <= x <= 6 for x in d)
@@ -195,6 +322,29 @@ def in_range(op, args):
     if len(d) == 2: return all(1 <= x <= 3 for x in d)
     if len(d) == 1: return 1 <= d[0] <= 6
     return False
+
+
+INV = {v: k for k, v in STD.items()}
+
+
+def expected(op, args):
+    """What the property statement demands of ONE spelling, from the documented map alone (no code under test, no model):
+    "error" for an out-of-range / malformed spelling, else the canonical key and its views."""
+    if not in_range(op, args): return "error"
+    d = digits_of(args)
+    if op == "c_":
+        if len(d) == 4: va, vb = INV[tuple(sorted(d[:2]))], INV[tuple(sorted(d[2:]))]
+        else: va, vb = d
+        lo, hi = sorted((va, vb))
+        st = STD[lo] + STD[hi]
+        flags = (lo == hi and hi <= 3, lo != hi and hi <= 3, hi >= 4)
+        return {"s": list(st), "v": [lo, hi], "mult": len(orbit(st)), "long": flags[0], "off": flags[1], "shear": flags[2],
+                "calc": ["LONGITUDINAL", "OFF_DIAGONAL", "SHEAR"][flags.index(True)]}
+    if len(d) == 2:
+        st = tuple(sorted(d)); v = INV[st]
+    else:
+        v = d[0]; st = STD[v]
+    return {"s": list(st), "v": v}
 
 
 def oracle_cases():
@@ -211,6 +361,7 @@ def oracle_cases():
     for op, args in all_inputs():
         if not in_range(op, args):
             cases.append(("reject", {"op": op, "args": args}))
+        cases.append(("input_spec", {"op": op, "args": args}))
     return cases
 
 
@@ -220,7 +371,8 @@ def run(ctx: Ctx) -> Result:
     res.exhaustive = True
     res.rule = ("complete finite domain: 81 tuples + 36 pairs + 9 strain pairs + 6 strain Voigt indices, each in positional/str/int "
                 "spelling, plus indices 0..4 (standard) and 0..7 (Voigt) and malformed spellings; a case is one (function, argument "
-                "list); all are distinct; non-trivial = every case (each exercises a distinct dispatch path or value)")
+                "list); all are distinct; non-trivial = every case (each exercises a distinct dispatch path or value); evaluations "
+                "counts each case once against the hand model and once against the translated source, plus the malformed stream")
     inputs = all_inputs()
     ops = [{"op": op, "args": args} for op, args in inputs]
     model = ctx.driver.ask(ops)
@@ -234,6 +386,56 @@ def run(ctx: Ctx) -> Result:
         else:
             res.traces_validated += 1
     res.distinct_nontrivial = len({(op, tuple(map(repr, a))) for op, a in inputs})
+    # ---- the domain the kernel decides is exactly this one
+    dom = ctx.driver.ask([{"op": "c10.domain"}])[0]
+    lean_dom = {(o, repr(a)) for o in ("c_", "e_") for a in dom[o]}
+    here = {(o, repr(a)) for o, a in inputs}
+    if lean_dom != here:
+        res.disagreements.append(Disagreement("c10.domain", sorted(lean_dom ^ here)[:10], len(here), len(lean_dom),
+                                              "the domain of the voigt_model_is_source theorems differs from all_inputs()"))
+    # ---- (b) the translated source, run by the PyLite evaluator, against CPython: complete domain + malformed stream
+    n_mal = 1500 if ctx.thorough() else 400
+    malformed = [(o, a) for a in MALFORMED_FIXED for o in ("c_", "e_")]
+    for a in malformed_stream(ctx.rng, n_mal):
+        malformed.append(("c_" if ctx.rng.integers(2) else "e_", a))
+    src_inputs = inputs + malformed
+    src_out = ctx.driver.ask([{"op": "c10.src", "fn": op, "args": args} for op, args in src_inputs])
+    src_stats = {"value": 0, "unsupported_or_fuel": 0}
+    n_src_ok = 0
+    for (op, args), ln in zip(src_inputs, src_out):
+        py = src_canon(c_ if op == "c_" else e_, args)
+        res.evaluations += 1
+        if "exc" in py: src_stats[py["exc"]] = src_stats.get(py["exc"], 0) + 1
+        else: src_stats["value"] += 1
+        if isinstance(ln, dict) and ("unsupported" in ln or "out_of_fuel" in ln): src_stats["unsupported_or_fuel"] += 1
+        if same_result(py, ln):
+            n_src_ok += 1; res.traces_validated += 1
+        else:
+            res.disagreements.append(Disagreement("c10.src:" + op, args, py, ln,
+                                                  "translated source run by PyLite differs from CPython"))
+    # ---- translated source vs hand-written model on the decided domain (the content of `voigt_model_is_source`)
+    svm = ctx.driver.ask([{"op": "c10.src_vs_model"}])[0]
+    diffs = [("c_", a) for a in svm["c_"]] + [("e_", a) for a in svm["e_"]]
+    if diffs or svm["views"]:
+        rows = []
+        for op, a in diffs:
+            real = call(c_ if op == "c_" else e_, canon_c if op == "c_" else canon_e, a)
+            ok = oracle("input_spec", {"op": op, "args": a}) is None
+            rows.append({"op": op, "args": a, "real_code": real, "property_holds_on_real_code": ok})
+        # inputs on which the real code violates the property first
+        rows = ([r for r in rows if not r["property_holds_on_real_code"]] + [r for r in rows if r["property_holds_on_real_code"]])[:10]
+        for r in rows:
+            op, a, real = r["op"], r["args"], r["real_code"]
+            res.disagreements.append(Disagreement("c10.src_vs_model:" + op, a, real, "(hand model differs from translated source)",
+                                                  "first inputs of the decided domain where translated source != model"))
+        vrows = []
+        for v in svm["views"][:5]:
+            real = call(c_, canon_c, v["v"])
+            vrows.append({"key_voigt": v["v"], "hand_model": v, "real_code": real,
+                          "property_holds_on_real_code": oracle("input_spec", {"op": "c_", "args": v["v"]}) is None})
+            res.disagreements.append(Disagreement("c10.src_vs_model:views", v["v"], real, v,
+                                                  "a view of this key read off the translated source differs from the hand model"))
+        res.extra["src_vs_model"] = {"inputs": rows, "views": vrows}
     res.samples = [{"op": "c_", "args": [1, 1, 2, 3], "impl": call(c_, canon_c, [1, 1, 2, 3])},
                    {"op": "c_", "args": ["46"], "impl": call(c_, canon_c, ["46"])},
                    {"op": "c_", "args": [5], "impl": call(c_, canon_c, [5])},
@@ -252,8 +454,19 @@ def run(ctx: Ctx) -> Result:
                 what=f"{check} fails", input={"check": check, "payload": payload}, observed=r[0], expected=r[1],
                 site=f"{check}:{payload}"))
             if len(res.oracle_failures) >= 10: break
+    # an input_spec failure that may depend on the calls made before it: record the two-call history as well, so that the replay
+    # (a fresh process) reproduces it
+    for f in [f for f in res.oracle_failures if f.input["check"] == "input_spec"][:3]:
+        op, args = f.input["payload"]["op"], f.input["payload"]["args"]
+        seq = [["e_" if op == "c_" else "c_", args], [op, args]]
+        r = oracle("sequence", {"seq": seq})
+        if r is not None:
+            res.oracle_failures.append(OracleFailure(what="sequence fails", input={"check": "sequence", "payload": {"seq": seq}},
+                                                     observed=r[0], expected=r[1], site=f"sequence:{seq}"))
     res.distribution = {"correspondence_cases": len(inputs), "rejected_by_impl": n_err,
-                        "accepted_by_impl": len(inputs) - n_err, "oracle_clauses_evaluated": n_or}
+                        "accepted_by_impl": len(inputs) - n_err, "oracle_clauses_evaluated": n_or,
+                        "src_cases": len(inputs), "src_malformed_cases": len(malformed), "src_agree": n_src_ok,
+                        "src_outcomes_cpython": src_stats}
     return res
 
 
